@@ -220,6 +220,28 @@ theorem C09_accepted_sizes_reviewed :
   ("roster.(*itemMarshaler).Token", "index(allow)", "m.items[0]"),
   ("roster.(*itemMarshaler).Token", "slice(allow)", "m.items[1:]")] := by decide +kernel
 
+/-! ## Handler locks and the transport; request contexts
+
+A mutex of a handler package must not be held while a stanza is written to the session: the
+write blocks as long as the peer does not read, a handler that takes the same mutex stops the
+serve goroutine from reading, and a peer that finishes its own writes first is never drained.
+Regenerated: every (function, mutex, send) with the mutex held across the call
+(`harness/c09/lockfacts.go`, `heldAcrossSend`). -/
+theorem C09_no_lock_across_send : XmppModel.Generated.C09.locksAcrossSend = some [] := by
+  decide +kernel
+
+/-- Every `context.With…` whose cancel function is not deferred at once is one of the reviewed
+places that hand the cancel function on (returned by setDeadline / setWriteDeadline, stored in
+the session by negotiateSession / SetCloseDeadline, stored per expectation by ibb's Expect).
+A request goroutine whose context outlives its caller stays registered for its id: a late reply
+is handed to it and never closed (Serve waits for ever). -/
+theorem C09_cancels_reviewed :
+    XmppModel.Generated.C09.cancels = [("xmpp.setDeadline", false), ("xmpp.setWriteDeadline", false),
+      ("xmpp.negotiateSession", false), ("xmpp.(*Session).SetCloseDeadline", false),
+      ("xmpp.(*Session).sendResp", true), ("ibb.(*stanzaWriter).Write", true), ("ibb.(*Conn).Close", true),
+      ("ibb.(*Listener).Expect", false), ("muc.(*Channel).LeavePresence", true),
+      ("muc.(*Channel).JoinPresence", true)] := by decide +kernel
+
 /-! ## Known finding: the SCRAM client of the SASL dependency (negotiation, before Serve)
 
 Full-strength statement (false for mellium.im/sasl v0.3.2, see `Model/ScramLoop.lean`):
